@@ -5,7 +5,7 @@ use bio::alignment::pairwise::{banded, Scoring, MIN_SCORE};
 use bio::alignment::AlignmentOperation;
 use bio::alignment::sparse::find_kmer_matches;
 
-fn check(x: &[u8], y: &[u8], ms: i32, mm: i32, go: i32, ge: i32, k: usize, w: usize, warm: &[u8]) -> Result<(), String> {
+fn check(x: &[u8], y: &[u8], ms: i32, mm: i32, go: i32, ge: i32, k: usize, w: usize, warm: &[u8], cl: [i32; 4]) -> Result<(), String> {
     let (x, y, warm) = (x.to_vec(), y.to_vec(), warm.to_vec());
     guarded(move || {
         let (msl, mml, gol, gel) = (ms as i64, mm as i64, go as i64, ge as i64);
@@ -44,13 +44,34 @@ fn check(x: &[u8], y: &[u8], ms: i32, mm: i32, go: i32, ge: i32, k: usize, w: us
                 }
             }
         }
+        // custom() with four INDEPENDENT clip penalties (each one forbidden, free or a small penalty): the path re-scores to the reported score,
+        // the score never exceeds the unbanded aligner's, and equals it when the band is the whole matrix
+        {
+            let sc = || Scoring::new(go, ge, score).xclip_prefix(cl[0]).xclip_suffix(cl[1]).yclip_prefix(cl[2]).yclip_suffix(cl[3]);
+            let mut b = banded::Aligner::with_scoring(sc(), k, w);
+            if !warm.is_empty() { b.local(&warm, &y); }
+            let a = b.custom(&x, &y);
+            let clips = [cl[0] as i64, cl[1] as i64, cl[2] as i64, cl[3] as i64];
+            let got = rescore(&a, &x, &y, msl, mml, gol, gel, clips).map_err(|e| format!("custom clips {:?}: {}", cl, e))?;
+            if got != a.score as i64 { return Err(format!("custom clips {:?}: path {:?} re-scores to {} but the reported score is {}", cl, a.operations, got, a.score)); }
+            let mut full = bio::alignment::pairwise::Aligner::with_scoring(sc());
+            let f = full.custom(&x, &y);
+            if a.score > f.score { return Err(format!("custom clips {:?}: banded score {} exceeds the unbanded score {}", cl, a.score, f.score)); }
+            if no_kmer && a.score != f.score { return Err(format!("custom clips {:?}: no k-mer match but banded score {} != unbanded score {}", cl, a.score, f.score)); }
+        }
         Ok(())
     }).and_then(|r| r)
+}
+/// clip penalties from a 4-letter code: 0 = forbidden (MIN_SCORE), 1 = free, 2 = -1, 3 = -3
+fn clips_of(code: &str) -> [i32; 4] {
+    let b = code.as_bytes();
+    let f = |c: u8| match c { b'1' => 0, b'2' => -1, b'3' => -3, _ => MIN_SCORE };
+    [f(b[0]), f(b[1]), f(b[2]), f(b[3])]
 }
 pub fn run(input: &str) -> Result<(), String> {
     let sc = nums(field(input, "sc").unwrap_or("1,-1,-5,-1"));
     check(&unhex(field(input, "x").unwrap_or("")), &unhex(field(input, "y").unwrap_or("")), sc[0] as i32, sc[1] as i32, sc[2] as i32, sc[3] as i32,
-          num(input, "k"), num(input, "w"), &unhex(field(input, "warm").unwrap_or("")))
+          num(input, "k"), num(input, "w"), &unhex(field(input, "warm").unwrap_or("")), clips_of(field(input, "clip").unwrap_or("0000")))
 }
 pub fn search(seed: u64, budget: &Budget, thorough: bool) -> (u64, Option<(String, String)>) {
     let rng = Rng::new(seed);
@@ -62,14 +83,26 @@ pub fn search(seed: u64, budget: &Budget, thorough: bool) -> (u64, Option<(Strin
         let x = rng.bytes(1 + rng.below(14) as usize, alpha);
         let mut y = rng.bytes(1 + rng.below(14) as usize, alpha);
         if rng.below(2) == 0 { y = x.clone(); for _ in 0..rng.below(3) { if y.len() > 1 { let i = rng.below(y.len() as u64) as usize; if rng.below(2) == 0 { y.remove(i); } else { y[i] = *rng.pick(alpha); } } } }
+        let k = 1 + rng.below(4) as usize; let w = rng.below(5) as usize;
+        // a shared core with independent overhangs at both ends of both sequences (long enough to leave the band: more than 2k + w)
+        let (x, y) = if rng.below(3) == 0 {
+            let core = rng.bytes(k + rng.below(8) as usize, alpha);
+            let oh = |lim: u64| rng.bytes(rng.below(lim) as usize, alpha);
+            let lim = (2 * k + w + 6) as u64;
+            let mut x2 = oh(lim); x2.extend(&core); x2.extend(oh(lim));
+            let mut y2 = oh(lim); y2.extend(&core); y2.extend(oh(lim));
+            (x2, y2)
+        } else { (x, y) };
+        // the property quantifies over all byte sequences, the empty one included
+        let (x, y) = match rng.below(16) { 0 => (vec![], y), 1 => (x, vec![]), 2 => (vec![], vec![]), _ => (x, y) };
         let warm = if rng.below(2) == 0 { rng.bytes(1 + rng.below(12) as usize, alpha) } else { vec![] };
         let (ms, mm) = (*rng.pick(&[1i32, 2]), *rng.pick(&[-1i32, -2, -4]));
         let (go, ge) = (*rng.pick(&[0i32, -1, -3, -5]), *rng.pick(&[-1i32, -2]));
-        let k = 1 + rng.below(4) as usize; let w = rng.below(5) as usize;
         tried += 1;
-        let input = format!("sc={},{},{},{} k={} w={} x={} y={} warm={}", ms, mm, go, ge, k, w, hex(&x), hex(&y), hex(&warm));
+        let code: String = (0..4).map(|_| *rng.pick(&['0', '0', '1', '1', '2', '3'])).collect();
+        let input = format!("sc={},{},{},{} k={} w={} x={} y={} warm={} clip={}", ms, mm, go, ge, k, w, hex(&x), hex(&y), hex(&warm), code);
         note_current(&input);
-        if let Err(e) = check(&x, &y, ms, mm, go, ge, k, w, &warm) {
+        if let Err(e) = check(&x, &y, ms, mm, go, ge, k, w, &warm, clips_of(&code)) {
             return (tried, Some((input, e)));
         }
     }
